@@ -315,6 +315,8 @@ theorem engStep_ok (s : Eng) (a : Act) (h : EngOk s) : EngOk (engStep s a) := by
       rcases hg with hg | hg
       · exact Nat.lt_succ_of_lt (hlt g hg)
       · simp [engStep, hg]
+  | warmup =>
+    exact ⟨hn, fun g hg => Nat.lt_succ_of_lt (hlt g hg)⟩
   | move i =>
     refine ⟨?_, ?_⟩
     · simp only [engStep, toggle_guns]; exact hn
